@@ -204,12 +204,13 @@ func runC13(c *core.Ctx) core.Meta {
 				if !ok {
 					continue
 				}
-				a, bb, n, ok := readOf(bo.X)
+				bop, bx, by := cmpConstRight(bo)
+				a, bb, n, ok := readOf(bx)
 				if !ok {
 					continue
 				}
 				st1.Instances++
-				k, _ := core.ConstInt(bo.Y)
+				k, _ := core.ConstInt(by)
 				var field string
 				for name, lf := range amdKernelCodeT {
 					if lf.off == a && lf.bits == n {
@@ -227,22 +228,22 @@ func runC13(c *core.Ctx) core.Meta {
 				var okV bool
 				switch field {
 				case "CodeVersionMajor":
-					okV = k == 1 && (bo.Op == token.NEQ || bo.Op == token.EQL)
+					okV = k == 1 && (bop == token.NEQ || bop == token.EQL)
 				case "CodeVersionMinor":
-					okV = (bo.Op == token.GTR && k == 2) || (bo.Op == token.LEQ && k == 2) || (bo.Op == token.LSS && k == 3) || (bo.Op == token.GEQ && k == 3)
+					okV = (bop == token.GTR && k == 2) || (bop == token.LEQ && k == 2) || (bop == token.LSS && k == 3) || (bop == token.GEQ && k == 3)
 				case "MachineKind":
 					okV = k == 1
 				case "MachineVersionMajor":
-					okV = (bo.Op == token.LSS && k == 7) || (bo.Op == token.GTR && k == 9) || (bo.Op == token.GEQ && k == 7) || (bo.Op == token.LEQ && k == 9)
+					okV = (bop == token.LSS && k == 7) || (bop == token.GTR && k == 9) || (bop == token.GEQ && k == 7) || (bop == token.LEQ && k == 9)
 				case "KernelCodeEntryByteOffset":
 					okV = k == 256
 				default:
 					okV = true
 				}
 				st1.Ob(okV)
-				st1.Sample("isV2V3Header: %s %s %d", field, bo.Op, k)
+				st1.Sample("isV2V3Header: %s %s %d", field, bop, k)
 				if !okV {
-					c.ReportAt("R13.1", fn, in.Pos(), "sniff:"+field+":value", fmt.Sprintf("the sniffer compares %s with %s %d, not with the documented signature value", field, bo.Op, k))
+					c.ReportAt("R13.1", fn, in.Pos(), "sniff:"+field+":value", fmt.Sprintf("the sniffer compares %s with %s %d, not with the documented signature value", field, bop, k))
 				}
 			}
 		}
@@ -424,7 +425,7 @@ func runC13(c *core.Ctx) core.Meta {
 				st2.Instances++
 				arg := lp.Of(core.CallOf(in).Args[0])
 				m := regexp.MustCompile(`^param:rodataSectionData\[(.*):\((.*)\+64\)\]$`).FindStringSubmatch(arg)
-				ok := m != nil && m[1] == m[2] && regexp.MustCompile(`\.Value-param:rodataSection\.Addr\)$`).MatchString(m[1])
+				ok := m != nil && m[1] == m[2] && core.ProvMatch(regexp.MustCompile(`\.Value-param:rodataSection\.Addr\)$`), m[1])
 				st2.Ob(ok)
 				st2.Sample("findV5KernelDescriptor: parseV5KernelDescriptor(%s)", short(arg))
 				if !ok {
@@ -594,7 +595,7 @@ func runC13(c *core.Ctx) core.Meta {
 				continue
 			}
 			st3.Instances++
-			m := regexp.MustCompile(`\.Data\(\)\[\((.*)\.Value-(.*)\.Addr\):\(\((.*)\.Value-(.*)\.Addr\)\+(.*)\.Size\)\]$`).FindStringSubmatch(pv)
+			m := core.ProvFind(regexp.MustCompile(`\.Data\(\)\[\((.*)\.Value-(.*)\.Addr\):\(\((.*)\.Value-(.*)\.Addr\)\+(.*)\.Size\)\]$`), pv)
 			ok2 := m != nil && m[1] == m[3] && m[1] == m[5] && m[2] == m[4] && strings.HasSuffix(m[2], `Section(".text")`)
 			st3.Ob(ok2)
 			st3.Sample("loader: kernel bytes = %s", short(pv))
